@@ -567,7 +567,9 @@ def check_output_(src, out, box, inp):
         if not zok:
             if not guard:
                 R.count('known_finding_D7h_cases')
-                if KNOWN_Z not in R.known:      # reported once; every further case is only counted
+                # (a finding of C10, the property about the cropped axes: under another property's run of this harness -- C14,
+                # which is about declared extents -- it is only counted)
+                if KNOWN_Z not in R.known and a.pid == 'C10':      # reported once; every further case is only counted
                     R.violation('oracle', inp, f'sample axis starts at {r.zslices[0]} instead of {src["zslices"][z0]}', finding_key=KNOWN_Z)
                     R.known.append(KNOWN_Z)
             else:
